@@ -616,8 +616,8 @@ def r09_carry_agree(ctx):
                 return temps[e.id]
             if isinstance(e, ast.Call):
                 qs = callee_quals(ctx, f, e)
-                if len(qs) == 1 and e.args:
-                    a = e.args[0]
+                a = ctx.first_arg(f, e) if len(qs) == 1 else None
+                if a is not None:
                     k = None
                     if _self_attr(a, selfn):
                         k, car = 0, a.attr
